@@ -5,10 +5,10 @@ From Coq Require Import List Bool.
 From EDP Require Import Gen.Prealloc.
 
 Lemma preallocations_capped : forallb (fun s => snd s) prealloc_sites = true.
-Proof. vm_compute. reflexivity. Qed.
+Proof. reflexivity. Qed.
 
 Lemma preallocations_listed : (8 <= length prealloc_sites)%nat.
-Proof. vm_compute. repeat constructor. Qed.
+Proof. unfold prealloc_sites. cbn [length]. repeat constructor. Qed.
 
 Lemma cap_checked_before_allocation : forallb snd cap_before_alloc_sites = true /\ length cap_before_alloc_sites = 2%nat.
-Proof. vm_compute. split; reflexivity. Qed.
+Proof. split; reflexivity. Qed.
